@@ -37,9 +37,21 @@ def gen_cases(tier, seed):
             hp["nesterov"] = bool(rng.random() < 0.3)
         else:
             hp["betas"] = [(0.9, 0.999), (0.5, 0.7), (0.0, 0.9)][int(rng.integers(3))]
-            hp["eps"] = float(rng.choice([1e-8, 1e-3]))
+            hp["eps"] = float(rng.choice([1e-8, 1e-3, 0.0, 1e-8]))        # eps = 0 is accepted by the constructors (and by PyTorch)
         cases.append({"opt": kind, "hp": hp, "seed": int(rng.integers(2 ** 31)), "n_events": int(rng.integers(5, 41)),
                       "dtype": "float32" if k % 7 == 6 else "float64"})
+    # long plain training loops (zero_grad, backward, step) x 1100-1300 steps: whatever is right for the first N steps must stay right
+    # (step counters, bias corrections at large t, state that saturates) - float64 only, tiny parameters
+    nlong = 2 if tier == "quick" else 8
+    for k in range(3 * nlong):
+        kind = ["SGD", "Adam", "AdamW"][k % 3]
+        hp = {"lr": [1e-3, 0.01][k % 2], "weight_decay": [0.0, 0.1][(k // 3) % 2], "maximize": False}
+        if kind == "SGD":
+            hp.update(momentum=0.9, dampening=[0.0, 0.3][(k // 3) % 2], nesterov=False)
+        else:
+            hp.update(betas=[(0.9, 0.999), (0.8, 0.9995)][(k // 3) % 2], eps=1e-8)
+        cases.append({"opt": kind, "hp": hp, "seed": int(rng.integers(2 ** 31)), "n_events": 3 * int(rng.integers(1100, 1300)),
+                      "dtype": "float64", "script": ["zero", "bw", "step"]})
     return cases
 
 
@@ -141,7 +153,7 @@ def run_case(ns, mon, case):
     kw = dict(hp)
     events = []
     froze = False
-    if rng.random() < 0.2:
+    if rng.random() < 0.2 and not case.get("script"):
         # fine-tuning schedule: a parameter is frozen while the optimizer is built and unfrozen later; from then on it is a trainable
         # parameter that was given to the optimizer, so step() must move it
         j0 = int(rng.integers(npar))
@@ -189,8 +201,11 @@ def run_case(ns, mon, case):
         loss.backward()
         return True
 
-    for _ in range(case["n_events"]):
+    script = case.get("script")
+    for ev_i in range(case["n_events"]):
         r = rng.random()
+        if script:
+            r = {"bw": 0.1, "step": 0.5, "zero": 0.7}[script[ev_i % len(script)]]
         if r < 0.35:
             if do_backward():
                 kinds.append("bw"); events.append("backward")
@@ -227,7 +242,7 @@ def run_case(ns, mon, case):
             for i in range(npar):
                 if active[i] and grads[i] is not None and np.any(grads[i] != 0) and np.all(np.isfinite(grads[i])) and hp["lr"] > 0:
                     counters["moved_checks"] = counters.get("moved_checks", 0) + 1
-                    if opt_params[i].data.tobytes() == before_all[i]:
+                    if opt_params[i].data.tobytes() == before_all[i] and not (hp.get("eps", 1) == 0 and not np.all(np.isfinite(opt_params[i].data))):
                         viol.append(V(f"{kind}:trainable-parameter-with-gradient-not-updated",
                                       "a parameter that was given to the optimizer, requires grad and holds a non-zero gradient was not changed by step()",
                                       hp=hp, events=events[-10:], index=i))
@@ -259,7 +274,14 @@ def run_case(ns, mon, case):
                         continue
                     want = refs[v].theta[i]
                     got = opt_params[i].data.astype(np.float64)
-                    err = np.max(np.abs(got - want) / np.maximum(1.0, np.abs(want))) if got.size else 0.0
+                    with np.errstate(all="ignore"):
+                        if hp.get("eps", 1) == 0 and np.array_equal(np.isnan(got), np.isnan(want)):
+                            # eps = 0 with an exactly zero gradient history is 0/0 in the published rule as well (PyTorch yields nan too):
+                            # the implementation must be nan exactly where the rule is, and agree everywhere else
+                            fin_ = ~np.isnan(want)
+                            err = np.max(np.abs(got[fin_] - want[fin_]) / np.maximum(1.0, np.abs(want[fin_]))) if fin_.any() else 0.0
+                        else:
+                            err = np.max(np.abs(got - want) / np.maximum(1.0, np.abs(want))) if got.size else 0.0
                     counters["trajectory_comparisons"] = counters.get("trajectory_comparisons", 0) + 1
                     if not (err <= tol):
                         good = False
@@ -270,7 +292,7 @@ def run_case(ns, mon, case):
                 cls = hp_class(kind, hp)
                 viol.append(V(f"{kind}:trajectory-differs-from-reference:{cls}" + (":after-step-without-zero_grad" if nozero_step else "")
                               + (":after-lr-reassigned" if lr_changed else ""),
-                              f"parameter after step {nsteps} differs from the reference update rule (rel err {worst[2]:.3g})", hp=hp, events=events,
+                              f"parameter after step {nsteps} differs from the reference update rule (rel err {worst[2]:.3g})", hp=hp, events=events[-40:],
                               got=worst[3], want=worst[4], step=nsteps))
                 break
             alive &= ok_variants
@@ -280,7 +302,7 @@ def run_case(ns, mon, case):
                         refs[v].theta[i] = opt_params[i].data.astype(np.float64)
             last_was_step = True
         elif r < 0.80:
-            which = int(rng.integers(3))
+            which = int(rng.integers(3)) if not script else 0
             if which == 0:
                 opt.zero_grad()
             elif which == 1:
@@ -334,10 +356,10 @@ def run_case(ns, mon, case):
     for v in viol + mv:
         if v["sig"] not in seen:
             seen.add(v["sig"]); vv.append(v)
-    key = json.dumps([hp_class(kind, hp), case["dtype"], kinds]) if nontrivial else None
+    key = json.dumps([hp_class(kind, hp), case["dtype"], kinds if not script else ["long-loop", len(kinds)]]) if nontrivial else None
     return {"key": key, "viol": vv, "counters": counters,
             "cover": {"hp_classes": [hp_class(kind, hp)], "features": [k for k, b in (("step-without-zero_grad", nozero_step), ("freeze", froze), ("lr-reassigned", lr_changed), ("second-optimizer-instance", "new-opt" in kinds),
-                                                                                     ("float32", dt == np.float32), ("doc-variant-considered", len(variants) > 1)) if b]},
+                                                                                     ("float32", dt == np.float32), ("doc-variant-considered", len(variants) > 1), ("long-loop>1000-steps", bool(script) and nsteps > 1000)) if b]},
             "sample": {"case": case, "events": events[:30]}}
 
 
